@@ -451,6 +451,18 @@ def analyse(fb, spec):
         pt = p["t"]
         try:
             if pt.get("k") == "float":
+                try:
+                    env = g4.Env(None, {p["decl"]: BV.param("v", 32, False)}, None)
+                    interp.block(f.body, env)
+                    if env.ret is not None and env.done == C1 and env.ret.w == 32:
+                        exp = [P("v", 8 * (3 - i // 8) + i % 8) for i in range(32)]
+                        got = [g4.norm(b) for b in env.ret.bits]
+                        ok = got == exp
+                        out.append(Ob("swap", "swapEndian", "swapEndian(float)", f.loc, ok, "bit-exact byte reversal of the 32-bit pattern (G4)" if ok else
+                                      "swapEndian(float) is not a byte reversal of the bit pattern"))
+                        continue
+                except Unsupported:
+                    pass
                 perm = interp.float_swap(f)
                 ok = all(perm[i] == 3 - i for i in range(4))
                 out.append(Ob("swap", "swapEndian", "swapEndian(float)", f.loc, ok, "byte permutation %r is byte reversal" % perm if ok else
